@@ -18,7 +18,8 @@ list of prefix lengths; `pollAll reader content cuts 0` polls one reader object 
 `exactStages lens decoded cuts 0` is the behaviour the property demands: every poll returns exactly
 the not yet returned frames that are completely inside the visible bytes.
 
-TRR (`get_gromacs_frames`) has no Lean model; its size guards are exercised by the tie only.
+TRR (`get_gromacs_frames`): only the size-guard state machine is modelled (`trrRun`, last section);
+decoding, byte order and precision are checked by the tie.
 -/
 namespace Infretis.C13
 open Infretis.Readers
